@@ -1110,7 +1110,7 @@ def lut_identity(V, n_sym):
     saved = lut.create_const_tensor
     lut.create_const_tensor = lambda name, shape, dtype, values, purpose=None, **k: _Obj(name=name, values=list(values), equivalence_id=None)
     try:
-        with core.shims((tensor, {"hash": _shash})):
+        with core.shims((tensor, {"hash": _shash}), (lut, {"hash": _shash})):
             a_ = lut.create_lut_tensor("a", ta, DataType.int8)
             b_ = lut.create_lut_tensor("b", tb, DataType.int8)
     finally:
